@@ -54,7 +54,14 @@ func shardConnectorEventFilter(shard, totalShards int) ConnectorEventFilter {
 func shardFilter(shard, totalShards int) EventFilter {
 	return func(e *Event) bool {
 		if totalShards > 1 {
-			return e.ID%int64(totalShards) != int64(shard)-1
+			// Use the non-negative remainder so that negative IDs (e.g. hashed connector event IDs) are
+			// still assigned to exactly one shard. Go's % truncates towards zero.
+			remainder := e.ID % int64(totalShards)
+			if remainder < 0 {
+				remainder += int64(totalShards)
+			}
+
+			return remainder != int64(shard)-1
 		}
 
 		return false
